@@ -805,7 +805,9 @@ func (vc *VC) callByContract(fr *frame, st *State, ct *Contract, fo *types.Func,
 			lbl = fmt.Sprintf("%d", i+1)
 		}
 		if !vc.noSafety {
-			vc.oblige(st, "pre@call", short+"."+lbl, pos, g, "precondition of "+short+": "+rq.Text)
+			for _, cj := range splitConj(g) {
+				vc.oblige(st, "pre@call", short+"."+lbl, pos, cj, "precondition of "+short+": "+rq.Text)
+			}
 		}
 	}
 	for _, pw := range ct.PanicsWhen {
